@@ -20,7 +20,7 @@ import (
 const addrA, addrB = "127.0.0.1:1001", "127.0.0.1:1002"
 
 type params struct {
-	kind   string // burst | two-senders | first-contact | both-ways | ask | idle-gap
+	kind   string // burst | two-senders | first-contact | both-ways | ask | idle-gap | idle-gap-noretry (reconnect limit 0)
 	n      int
 	size   int    // payload size
 	chunks string // all | small
@@ -88,8 +88,13 @@ func scenario(p params, bounds []int) *vexp.Scenario {
 					return opts
 				}
 			}
-			wa := vsys.NewWorld(x, vivid.WithActorSystemRemoting(addrA), vivid.WithActorSystemDefaultAskTimeout(30*time.Second))
-			wb := vsys.NewWorld(x, vivid.WithActorSystemRemoting(addrB), vivid.WithActorSystemDefaultAskTimeout(30*time.Second))
+			var ropts []vivid.ActorSystemOption
+			if p.kind == "idle-gap-noretry" {
+				// the link is healthy: nothing may depend on the reconnect machinery
+				ropts = append(ropts, vivid.WithActorSystemRemotingOption(vivid.WithActorSystemRemotingReconnect(0, 100*time.Millisecond, time.Second, 2, false)))
+			}
+			wa := vsys.NewWorld(x, append([]vivid.ActorSystemOption{vivid.WithActorSystemRemoting(addrA), vivid.WithActorSystemDefaultAskTimeout(30 * time.Second)}, ropts...)...)
+			wb := vsys.NewWorld(x, append([]vivid.ActorSystemOption{vivid.WithActorSystemRemoting(addrB), vivid.WithActorSystemDefaultAskTimeout(30 * time.Second)}, ropts...)...)
 			wa.Quiet, wb.Quiet = true, true
 			wa.Start()
 			wb.Start()
@@ -161,7 +166,7 @@ func scenario(p params, bounds []int) *vexp.Scenario {
 				wb.Sys.Tell(wb.Ref("/t1"), vsys.Msg{ID: "go"})
 			case "ask":
 				wa.Sys.Tell(wa.Ref("/s1"), vsys.Msg{ID: "ask"})
-			case "idle-gap":
+			case "idle-gap", "idle-gap-noretry":
 				wa.Sys.Tell(wa.Ref("/s1"), vsys.Msg{ID: "go"})
 				vrt.QuiesceNoTimers()
 				// let virtual time pass beyond the 10 s handshake deadlines, then send again
@@ -267,7 +272,7 @@ func build(tier string) []*vexp.Scenario {
 	if tier == "thorough" {
 		out = append(out, vexp.Split(16, func() *vexp.Scenario { return scenario(params{"first-contact", 3, 10, "all"}, b2) })...)
 	}
-	for _, k := range []string{"two-senders", "both-ways", "ask", "idle-gap"} {
+	for _, k := range []string{"two-senders", "both-ways", "ask", "idle-gap", "idle-gap-noretry"} {
 		for _, n := range []int{1, 2, 3} {
 			out = append(out, scenario(params{k, n, 10, "all"}, b1))
 			out = append(out, scenario(params{k, n, 10, "small"}, b1))
